@@ -17,14 +17,14 @@ DEFAULT = dict(
     p_group_result=0.25, p_flatten=0.4, p_as=0.12, p_named=0.25,
     p_opt=0.25, p_group_param=0.25, p_soft=0.35, p_obj=0.5, p_nest=0.25,
     p_dup=0.06, p_cycle=0.1, p_unknown_dep=0.08, p_foreign_dep=0.12,
-    n_types=8, early_scopes=0.3, p_multi_dec=0.25, p_group_dec=0.3, p_dec_self=0.85, p_one_obj=0.0, p_soft_pattern=0.0, p_dec_chain=0.0, p_dup_as=0.03, p_dup_dec_key=0.0, p_variadic=0.12, p_ns=0.2, p_wrap_ty=0.08,
+    n_types=8, early_scopes=0.3, p_multi_dec=0.25, p_group_dec=0.3, p_dec_self=0.85, p_one_obj=0.0, p_soft_pattern=0.0, p_dec_chain=0.0, p_dup_as=0.03, p_dup_dec_key=0.0, p_variadic=0.12, p_ns=0.2, p_wrap_ty=0.08, p_group_chain=0.02,
 )
 
 PROFILES = {
     "core-mix": {},
     "singleton": dict(w_invoke=10, p_fault=0.15, n_types=5, p_export=0.25, w_decorate=3, p_group_result=0.4,
                       p_group_param=0.45, p_flatten=0.6, p_soft=0.2),
-    "bystanders": dict(w_provide=12, w_invoke=4, p_soft=0.6, n_types=10),
+    "bystanders": dict(w_provide=12, w_invoke=4, p_soft=0.6, n_types=10, p_group_chain=0.08),
     "gaps": dict(p_unknown_dep=0.25, p_foreign_dep=0.3, p_opt=0.5, p_fault=0.08, w_decorate=1, n_types=7, p_export=0.3,
                  early_scopes=0.6),
     "dfaults": dict(w_decorate=6, p_fault=0.3, p_opt=0.5, n_types=5, p_multi_dec=0.3, p_group_dec=0.3, w_invoke=9,
@@ -39,7 +39,7 @@ PROFILES = {
     "trees": dict(w_scope=5, max_scopes=8, p_export=0.25, early_scopes=0.5, w_decorate=2, p_fault=0.03),
     "keys": dict(p_named=0.6, p_as=0.35, p_group_result=0.4, p_dup=0.2, n_types=3, w_decorate=1, p_fault=0.02),
     "groups": dict(p_group_result=0.7, p_group_param=0.7, p_soft=0.15, p_flatten=0.5, p_as=0.15, n_types=4,
-                   w_decorate=0.6, p_fault=0.05, p_export=0.2),
+                   w_decorate=0.6, p_fault=0.05, p_export=0.2, p_group_chain=0.08),
     "soft": dict(p_group_result=0.6, p_group_param=0.7, p_soft=0.6, n_types=4, w_decorate=0.3, p_fault=0.03, p_one_obj=0.7, p_soft_pattern=0.35),
     "decor": dict(w_decorate=7, p_multi_dec=0.35, p_group_dec=0.35, n_types=5, p_fault=0.12, w_scope=3, p_dec_chain=0.35,
                   p_dup_dec_key=0.04, p_ns=0.45),
@@ -215,7 +215,35 @@ class Gen:
             obj = dict(k="obj", fields=leaves[:i] + [dict(k="obj", fields=leaves[i:])])
         return [obj]
 
+    def gen_group_chain(self):
+        """group g with several feeders in one scope, an EARLIER feeder of g consuming another group h
+        that has several feeders of its own; then g is consumed (nested group resolution while the
+        outer list of feeders is being walked)"""
+        s = self.r.randrange(len(self.parents))
+        ty = self.rand_type() % 16
+        g, h = ("g", ty, 1), ("g", (ty + 1) % self.p["n_types"], 2)
+        seq = []
+        for _ in range(self.r.choice([2, 2, 3])):
+            seq.append((h, []))
+        seq.append((g, [h]))
+        for _ in range(self.r.choice([1, 2])):
+            seq.append((g, []))
+        if self.chance(0.3):
+            self.r.shuffle(seq)
+        for k, deps in seq:
+            f = self.new_fn(params=self.structure_params([self.leaf_param(d) for d in deps]),
+                            results=[dict(k="obj", fields=[dict(k="group", ty=k[1], group=k[2], flatten=False, **{"as": []})])],
+                            err=self.chance(0.3))
+            self.decorate_fn(f)
+            self.ops.append(dict(op="provide", scope=s, fn=f["id"], export=False))
+            self.prov[s].setdefault(k, f["id"])
+        leaf = self.r.choice([x for x in range(len(self.parents)) if s in self.ancestors(x)])
+        f = self.new_fn(params=self.structure_params([self.leaf_param(g)]), results=[], err=True)
+        self.ops.append(dict(op="invoke", scope=leaf, fn=f["id"]))
+
     def gen_provide(self):
+        if self.chance(self.p["p_group_chain"]) and len(self.ops) < 16:
+            return self.gen_group_chain()
         s = self.r.randrange(len(self.parents))
         export = self.chance(self.p["p_export"])
         target = 0 if export else s
@@ -625,9 +653,12 @@ def generate_reentrant(seed, count):
 
 # ---------------------------------------------------------------- viz profile (declared functions)
 
-def generate_viz(seed, count):
+def generate_viz(seed, count, decorators=False):
     """histories whose constructors are the declared pool functions P0..P47
-    (distinct dig IDs / names); DOT text is recorded after every operation"""
+    (distinct dig IDs / names); DOT text is recorded after every operation.
+    With decorators=True some provided keys also get a (reflect.MakeFunc) decorator that may
+    fail: its dig ID is unknown to the DOT graph (C14: Visualize must not panic on such errors;
+    C19 does not claim anything about failures inside decorators and does not use this option)."""
     import json, os, copy
     pool = json.load(open(os.path.join(os.path.dirname(os.path.abspath(__file__)), "pool.json")))
     rng = random.Random(f"viz:{seed}")
@@ -679,6 +710,20 @@ def generate_viz(seed, count):
             if rng.random() < 0.2 and len(parents) < 4:
                 ops.append(dict(op="scope", parent=rng.randrange(len(parents))))
                 parents.append(0)
+        if decorators and provided:
+            for k in rng.sample(provided, min(len(provided), rng.randint(1, 3))):
+                if k[0] == "s":
+                    res = dict(k="single", ty=k[1], name=k[2], **{"as": []})
+                    par = [dict(k="single", ty=k[1], name=k[2], opt=False)]
+                else:
+                    res = dict(k="group", ty=k[1], group=k[2], flatten=False, **{"as": []})
+                    par = [dict(k="group", ty=k[1], group=k[2], soft=False)]
+                f = dict(id=nfn, params=[dict(k="obj", fields=par)] if rng.random() < 0.7 else [],
+                         results=[dict(k="obj", fields=[res])], err=True,
+                         plan=[rng.choice(["err", "panic", "ok"]), "ok", "ok"], lens=[[rng.choice([0, 1, 2])] for _ in range(3)])
+                nfn += 1
+                fns.append(f)
+                ops.append(dict(op="decorate", scope=rng.randrange(len(parents)), fn=f["id"]))
         for _ in range(rng.randint(2, 5)):
             leaves = []
             for _ in range(rng.randint(1, 3)):
